@@ -24,17 +24,23 @@ Proof.
     + assert (n / 128 =? 0 = true) as -> by lia. reflexivity.
 Qed.
 
-(* more fuel than needed changes nothing; too little is reported, never a wrong answer *)
+(* more fuel than needed changes nothing; the leading range check of the source is the model's rl_pack *)
 Lemma pack_remaining_length_bridge fuel pkt n :
   (0 < fuel)%nat -> 0 <= n < 128 ^ Z.of_nat fuel ->
-  pack_remaining_length fuel pkt n = Ok (pkt ++ rl_encode n).
+  pack_remaining_length fuel pkt n =
+  match rl_pack n with Ok l => Ok (pkt ++ l) | Raise k => Raise k | OutOfFuel => OutOfFuel end.
 Proof.
-  intros Hf Hn. unfold pack_remaining_length. destruct fuel as [|f].
-  - lia.
-  - rewrite pack_rl_loop_bridge by assumption. rewrite (rl_encode_fuel f) by assumption. reflexivity.
+  intros Hf Hn. unfold pack_remaining_length, rl_pack, rl_max. destruct (n >? 268435455); [reflexivity|].
+  destruct fuel as [|f]; [lia|].
+  rewrite pack_rl_loop_bridge by assumption. rewrite (rl_encode_fuel f) by assumption. reflexivity.
 Qed.
 
 (* the fuel the model itself uses is always sufficient *)
 Lemma pack_remaining_length_bridge_total pkt n : 0 <= n ->
-  pack_remaining_length (rl_fuel n) pkt n = Ok (pkt ++ rl_encode n).
+  pack_remaining_length (rl_fuel n) pkt n =
+  match rl_pack n with Ok l => Ok (pkt ++ l) | Raise k => Raise k | OutOfFuel => OutOfFuel end.
 Proof. intros H. apply pack_remaining_length_bridge; [unfold rl_fuel; lia|]. split; [lia | apply rl_fuel_enough; lia]. Qed.
+
+(* above the limit the source raises whatever the fuel: nothing is appended to the packet *)
+Lemma pack_remaining_length_rejects fuel pkt n : rl_max < n -> pack_remaining_length fuel pkt n = Raise 1.
+Proof. unfold rl_max, pack_remaining_length. intros H. assert (n >? 268435455 = true) as -> by lia. reflexivity. Qed.
